@@ -1,39 +1,46 @@
 #!/usr/bin/env python3
-"""Builds /verif/seeded/<id>/meta.json from the seeding agent's meta, the independent confirmation log
-(tools/seed_verify.sh) and the detection-trial logs (tools/mutant_trial.sh)."""
-import json, os, re, sys, glob
-SE="/verif/seeded"
-verify=open("/root/scratch/seed_verify.log").read() if os.path.exists("/root/scratch/seed_verify.log") else ""
-trials=""
-for f in sorted(glob.glob("/root/scratch/seed_trials*.log")): trials+=open(f).read()
-notes=json.load(open("/verif/seeded/notes.json")) if os.path.exists("/verif/seeded/notes.json") else {}
-def section(text, header_re):
-    m=re.search(header_re, text, flags=re.M)
-    if not m: return ""
-    rest=text[m.end():]
-    n=re.search(r"^=== ", rest, flags=re.M)
-    return rest[:n.start()] if n else rest
+"""Builds /verif/seeded/<name>/meta.json from the seeding agent's own meta (meta.agent.json), the independent
+confirmation (seeded/verification.jsonl, written by tools/seed_verify_all.py), the regression pass over the final
+engines (seeded/regression.jsonl, written by tools/regress_seeds.py) and the notes on how each seed was first
+received (seeded/notes.json)."""
+import json, os, re
+SE = "/verif/seeded"
+def jl(p):
+    out = []
+    if os.path.exists(p):
+        for l in open(p):
+            try: out.append(json.loads(l))
+            except Exception: pass
+    return out
+ver = {}
+for r in jl(SE + "/verification.jsonl"): ver[r["seed"]] = r           # last entry wins
+reg = {}
+for r in jl(SE + "/regression.jsonl"): reg.setdefault(r["seed"], {})[r["check"]] = r
+notes = json.load(open(SE + "/notes.json")) if os.path.exists(SE + "/notes.json") else {}
 for d in sorted(os.listdir(SE)):
-    p=os.path.join(SE,d)
-    if not os.path.isdir(p): continue
-    agent={}
-    if os.path.exists(p+"/meta.agent.json"):
-        try: agent=json.load(open(p+"/meta.agent.json"))
-        except Exception as e: agent={"_unparsed": open(p+"/meta.agent.json").read()[:2000]}
-    v=section(verify, rf"^=== verify {d} .*$\n") if verify else ""
-    v=re.sub(r"^\s*(Compiling|Finished|Running|warning).*$\n","",v,flags=re.M)
-    runs=[]
-    for m in re.finditer(rf"^=== seed {d}(?: vs (C\d+))?.*$\n", trials, flags=re.M):
-        rest=trials[m.end():]; n=re.search(r"^=== ", rest, flags=re.M); body=rest[:n.start()] if n else rest
-        fps=re.findall(r"^  fingerprint: (.*)$", body, flags=re.M)
-        ex=re.search(r"check exit: (\d+)", body)
-        runs.append({"check": m.group(1) or d, "exit": int(ex.group(1)) if ex else None, "fingerprints": [f.replace("/root/scratch/mt/repo/","") for f in fps]})
-    meta={"property": d,
-          "summary": agent.get("summary"), "needs_to_manifest": agent.get("needs_to_manifest"), "files_touched": agent.get("files_touched"),
-          "seeded_by": "fresh sub-agent given only the property text and a scratch worktree (nothing from /verif)",
-          "agent_reported": {k:agent.get(k) for k in ("crate_tests_run","demo_with_patch","demo_without_patch","demo_command") if k in agent},
-          "independent_confirmation": {"how": "tools/seed_verify.sh in /root/scratch/sv (scratch worktree of /repo HEAD): demo on the clean tree, demo with patch.diff applied, the crate's own tests with the patch", "log": [l for l in v.strip().split("\n") if l.strip()][:14]},
-          "detection_trials": {"how": "tools/mutant_trial.sh <patch> <engine> <ID> quick (scratch worktree + engine copy, never /repo); exit 1 = VIOLATION reported", "runs": runs},
-          "note": notes.get(d)}
-    json.dump(meta, open(p+"/meta.json","w"), indent=1, ensure_ascii=False)
-    print(d, "confirmed-lines", len(meta["independent_confirmation"]["log"]), "runs", [(r["check"], r["exit"]) for r in runs])
+    p = os.path.join(SE, d)
+    if not os.path.isdir(p) or not os.path.exists(p + "/patch.diff"): continue
+    agent = {}
+    if os.path.exists(p + "/meta.agent.json"):
+        try: agent = json.load(open(p + "/meta.agent.json"))
+        except Exception: agent = {"_unparsed": open(p + "/meta.agent.json").read()[:2000]}
+    v = ver.get(d)
+    conf = None
+    if v:
+        conf = {"how": "tools/seed_verify_all.py in a scratch worktree of /repo HEAD (never /repo): the demonstration on the clean tree, the demonstration with patch.diff applied, and cargo nextest of the patched crate(s) compared with the pinned baseline's stable_pass list",
+                "demo_command": v.get("demo_cmd"), "demo_on_clean_tree": v.get("demo_on_clean_tree"), "demo_with_patch": v.get("demo_with_patch"),
+                "demo_failure_with_patch": v.get("demo_patched_tail"), "existing_tests_with_patch": v.get("existing_tests_with_patch"),
+                "not_passed": v.get("existing_tests_not_passed"), "error": v.get("error"),
+                "remark": "NOT-RUN entries are feature-gated tests of the baseline that a per-crate run does not build (ffi, lz4/zstd, prettyprint); no stable test FAILED" if any("NOT-RUN" in x for x in (v.get("existing_tests_not_passed") or [])) else None}
+    runs = [{"check": c, "exit": r["exit"], "reported": r["reported"], "engine_died": r.get("engine_died"), "fingerprints": r["fingerprints"], "n_fingerprints": r["n_fingerprints"],
+             "check_summary": r.get("summary"), "verif_commit": r.get("engine_commit"), "repo_commit": r.get("repo_commit")} for c, r in sorted(reg.get(d, {}).items())]
+    meta = {"property": d[:3], "round": {"": 1, "b": 2, "c": 3}.get(d[3:], 1),
+            "summary": agent.get("summary"), "needs_to_manifest": agent.get("needs_to_manifest"), "files_touched": agent.get("files_touched"),
+            "seeded_by": "fresh sub-agent given only the property text and a scratch worktree of /repo (nothing from /verif); rounds 2 and 3 were also told which functions earlier seeds had changed",
+            "agent_reported": {k: agent.get(k) for k in ("crate_tests_run", "demo_with_patch", "demo_without_patch", "demo_command") if k in agent},
+            "independent_confirmation": conf,
+            "what_i_ran": {"how": "tools/regress_seeds.py -> tools/mutant_trial.sh: patch applied to a scratch worktree (never /repo), engine copy built against it, quick tier of the check; exit 1 = VIOLATION reported; an engine killed by a signal is reported by ./check as VIOLATION engine-died",
+                           "final_engines": runs},
+            "first_reception": notes.get(d)}
+    json.dump(meta, open(p + "/meta.json", "w"), indent=1, ensure_ascii=False)
+    print(d, "confirmed" if conf else "UNCONFIRMED", [(r["check"], r["exit"]) for r in runs])
